@@ -12,7 +12,8 @@
           variables, constraints, objective, direction) + model id/name/notes/annotation + group notes/annotations;
           floats compared after rounding to 15 significant digits (`gen_io.r15`); `subsystem` is NOT compared (the statement
           does not list it; SBML has no field for it);
-        * same optimum (status class and optimal value, bcc.oracle_lp.close);
+        * same optimum (status class and optimal value, bcc.oracle_lp.close) on the models with well-scaled data
+          (`gen_io.tame`, about 60 %; the others carry 1e-07 / 123456.789 / 1e9, where GLPK's answer depends on pivoting);
         * a second round trip changes nothing (obs equality, exact);
         * validate_sbml_model on the written document: no SBML_FATAL / SBML_ERROR / SBML_SCHEMA_ERROR / COBRA_FATAL /
           COBRA_ERROR entries (libsbml's validator is the oracle for "valid").
@@ -217,7 +218,8 @@ def check_model(model, channels, modes, tmp, tag, idem_channel=None, validate=Tr
     n = 0
     flags = _model_flags(model)
     o0 = _norm(gen_io.obs(model))
-    opt0 = gen_io.optimum(model)
+    is_tame = gen_io.tame(model)
+    opt0 = gen_io.optimum(model) if is_tame else None
 
     def add(key, text, channel, mode):
         rp = dict(replay_base or {})
@@ -246,10 +248,11 @@ def check_model(model, channels, modes, tmp, tag, idem_channel=None, validate=Tr
             for aspect, oid, before, after in gen_io.diff_aspects(o0, o1, skip=SKIP_ASPECTS):
                 add(_aspect_key(aspect, oid, before, after, flags),
                     f"{aspect}{'' if oid is None else ' of ' + repr(oid)}: {before!r} -> {after!r}"[:400], channel, mode)
-            n += 1
-            opt1 = gen_io.optimum(m1)
-            if not gen_io.same_optimum(opt0, opt1) and not gen_io.diff_aspects(o0, o1, skip=SKIP_ASPECTS):
-                add("sbml:optimum", f"optimum {opt0} -> {opt1} although the observation is unchanged", channel, mode)
+            if is_tame and not gen_io.diff_aspects(o0, o1, skip=SKIP_ASPECTS):
+                n += 1
+                opt1 = gen_io.optimum(m1)
+                if not gen_io.same_optimum(opt0, opt1):
+                    add("sbml:optimum", f"optimum {opt0} -> {opt1} although the observation is unchanged", channel, mode)
             if channel == (idem_channel or channels[0]):
                 n += 1
                 try:
